@@ -272,6 +272,21 @@ impl WTClient {
     /// Adds a pending appointment to the tower record.
     pub fn add_pending_appointment(&mut self, tower_id: TowerId, appointment: &Appointment) {
         if let Some(tower) = self.towers.get_mut(&tower_id) {
+            // An appointment the tower has already answered (we hold its receipt, or its rejection) is not pending, whatever
+            // happens to a repeated request for it (e.g. the same revocation being notified twice at once)
+            if tower.invalid_appointments.contains(&appointment.locator)
+                || self
+                    .dbm
+                    .load_appointment_receipt(tower_id, appointment.locator)
+                    .is_some()
+            {
+                log::debug!(
+                    "Appointment already answered by the tower ({tower_id}, {})",
+                    appointment.locator
+                );
+                return;
+            }
+
             // Nothing to do if it was already there
             if !tower.pending_appointments.insert(appointment.locator) {
                 return;
